@@ -47,6 +47,17 @@ div_round_up(T& to,
              Coefficient_traits::const_reference x,
              Coefficient_traits::const_reference y);
 
+//! Divides \p x by the positive integer \p y, rounding towards plus infinity.
+/*!
+  \p y need not be exactly representable in the type of \p x:
+  it is approximated towards zero when \p x is non-negative and
+  away from zero when \p x is negative, so that the result is
+  an upper approximation of the exact quotient in both cases.
+*/
+template <typename T>
+typename Enable_If<Is_Native_Or_Checked<T>::value, void>::type
+div_round_up_by_positive(T& x, Coefficient_traits::const_reference y);
+
 #ifdef PPL_DOXYGEN_INCLUDE_IMPLEMENTATION_DETAILS
 //! Assigns to \p x the minimum between \p x and \p y.
 #endif // defined(PPL_DOXYGEN_INCLUDE_IMPLEMENTATION_DETAILS)
